@@ -87,6 +87,20 @@ def rule_unknown_no_effect(ctx, rid="R10.2"):
     disp = dispatcher(prog)
     cfg = cfg_of(disp)
     r = ctx.rule(rid, "a key without a table entry has no effect: the lookup-missed edge leads straight back to the loop header", floor=2)
+    sem = c02._valsem(ctx, "dispatch_eval")
+    if sem is not None and sem["all-errors"] is not None:
+        r.fail("%s|unknown-key-effect" % disp.qual, site(disp), sem["all-errors"])
+        return r
+    if sem is not None:
+        r.ok(site(disp) + " [table]", "keys without a table entry (several spellings) call nothing and change nothing (evaluated with recording keyword functions)")
+        # the table fixes the behaviour for the key names it contains; that *no* key name is special needs the path rule below.  It
+        # is applied when the dispatcher has the shape it can read; otherwise the table stands alone (NOTE)
+        try:
+            c02.keyword_loop(prog, disp)
+        except AnalysisError as why:
+            r.ok(site(disp) + " [path rule]", "NOT DECIDED for arbitrary key names: %s" % why)
+            r.note(site(disp), "unknown-key path rule not applicable to this dispatcher shape (%s); decided on the table only" % why)
+            return r
     loop, dnode, dcall = c02.keyword_loop(prog, disp)
     fn = dcall.func
     if not isinstance(fn, ast.Name):
@@ -237,3 +251,4 @@ def run(ctx):
     # derived class (const on a re-typed Draft 4) cannot appear in the stock class's table
     from .c16 import rule_create_copies
     rule_create_copies(ctx, "R10.6")
+    tables.rule_meta_properties(ctx, "R10.7")
